@@ -185,6 +185,12 @@ func c10Run(c *h.Ctx) {
 			c10Real(c, id, c.Rng(id))
 		}
 	}
+	for k := 0; k < c.Pick(1, 6); k++ {
+		id := fmt.Sprintf("udplisten%d", k)
+		if c.Case(id) {
+			c10Listener(c, id, c.Rng(id))
+		}
+	}
 	for k := 0; k < c.Pick(3, 20); k++ {
 		id := fmt.Sprintf("faces%d", k)
 		if c.Case(id) {
